@@ -547,17 +547,25 @@ class Exec(StmtMixin, CallMixin):
 
     def e_ListComp(self, n, st):
         # concrete comprehension over a concrete iterable
-        if len(n.generators) != 1 or n.generators[0].ifs:
+        if len(n.generators) != 1:
             raise Unsupported("list comprehension form (line %d)" % n.lineno)
         g = n.generators[0]
         it = self.eval(g.iter, st)
         items = it.items if isinstance(it, SList) else it
+        if isinstance(items, dict):
+            items = list(items.keys())
         if not isinstance(items, (list, tuple, range)):
             raise Unsupported("comprehension over symbolic iterable (line %d)" % n.lineno)
         out = []
         saved = dict(st.vars)
         for x in items:
             self.assign_target(g.target, x, st)
+            keep = [as_bool(self.eval(c_, st)) for c_ in g.ifs]
+            if not all(isinstance(k_, bool) for k_ in keep):
+                st.vars = saved
+                raise Unsupported("list comprehension with a symbolic filter (line %d)" % n.lineno)
+            if not all(keep):
+                continue
             out.append(self.eval(n.elt, st))
         st.vars = saved
         return SList(out)
